@@ -57,7 +57,7 @@ func DecodeLock(data []byte) (Lock, error) {
 	if err != nil {
 		return Lock{}, err
 	}
-	if pos+int(primaryLen) > len(data) {
+	if primaryLen > uint64(len(data)-pos) {
 		return Lock{}, fmt.Errorf("mvcc: lock primary truncated")
 	}
 	lock := Lock{
@@ -134,7 +134,7 @@ func DecodeWrite(data []byte) (Write, error) {
 			return Write{}, fmt.Errorf("mvcc: write short value truncated")
 		}
 		pos += n
-		if pos+int(sz) > len(data) {
+		if sz > uint64(len(data)-pos) {
 			return Write{}, fmt.Errorf("mvcc: write short value overflow")
 		}
 		write.ShortValue = append([]byte(nil), data[pos:pos+int(sz)]...)
